@@ -21,12 +21,8 @@ def run(rep, tier, seed, pa):
     kmax = {2: 6, 3: 4, 4: 3, 5: 2} if tier == "quick" else {2: 9, 3: 7, 4: 5, 5: 3}
     cases = ac.random_cases(rng, 150 if tier == "quick" else 1500, tier, unlabelled_share=0.1, kmax=kmax)
     cases += ac.grid_cases(rng, 120 if tier == "quick" else 3000)
-    items = []
-    for k, case in enumerate(cases):
-        mode = "cbc" if k % 2 == 0 else "glpk-noimport"
-        res = ac.align_case(pa, case, mode)
-        res["mode"] = mode
-        items.append((case, res))
+    results = ac.align_many(pa, [(case, "cbc" if k % 2 == 0 else "glpk-noimport", False) for k, case in enumerate(cases)])
+    items = list(zip(cases, results))
     facts = ac.judge_many(rep, items, part=True, want_optimal=True, limit=20 if tier == "quick" else 120)
     for (case, res), f in zip(items, facts):
         I = res.get("I")
